@@ -412,6 +412,26 @@ def rd_ksink(**k): return len(k)
 def rd_idx0(x): return x[0]
 def rd_idxa(x): return x["a"]
 def rd_slice(x): return x[0:1]
+def rd_slice_all(x): return x[:]
+def rd_slice_tail(x): return x[1:]
+def rd_slice_head(x): return x[:1]
+def rd_slice_step1(x): return x[::1]
+def rd_slice_rev(x): return x[::-1]
+def rd_slice_step2(x): return x[::2]
+def rd_mul1(x): return x * 1
+def rd_mul2(x): return 2 * x
+def rd_tuple(x): return tuple(x)
+def rd_dict(x): return dict(x)
+def rd_set(x): return set(x)
+def rd_reversed(x): return reversed(x)
+def rd_enumerate(x): return enumerate(x)
+def rd_zip(x): return zip(x, x)
+def rd_minmax(x): return (min(x), max(x))
+def rd_anyall(x): return (any(x), all(x))
+def rd_cond(x): return x if x else [x]
+def rd_unpack(x):
+    a, b = x
+    return [a, b]
 def rd_attr(x): return x.a
 def rd_eqself(x): return x == x
 def rd_sorted(x): return sorted(x)
